@@ -118,6 +118,9 @@ func (c12) Gen(r *sim.Rand, tier string, run uint64) *sim.Scenario {
 		if kind == 2 && r.Chance(1, 8) {
 			sc.Cfg["forkinhook"] = 1
 		}
+		if r.Chance(1, 4) {
+			sc.Cfg["faulty"] = 1
+		}
 		if kind == 1 && r.Chance(1, 20) {
 			sc.Cfg["initfrom"] = int64(r.Range(1, 2))
 		}
@@ -651,6 +654,18 @@ func c12bare(sc *sim.Scenario, env *sim.Env) *sim.Violation {
 	mem := NewSimMem(env, 0, uint64(sc.C("fillseed"))^0xba5e)
 	mem.NoLog = true
 	loadSimMem(mem, sc)
+	if sc.C("faulty") != 0 {
+		// banks $C0-$FF are not there: an access faults (the Step that makes it panics, which
+		// ends the run as far as this property goes; a Step that swallows the fault goes on,
+		// and still has to tell the truth about STP)
+		mem.Fault = func(a uint32) bool {
+			if a>>16 >= 0xC0 {
+				st.Fault("device_fault")
+				return true
+			}
+			return false
+		}
+	}
 	pc := uint32(sc.C("pc")) & 0xFFFF
 	mem.Poke(0x00FFFC, byte(pc))
 	mem.Poke(0x00FFFD, byte(pc>>8))
